@@ -5,13 +5,20 @@ import ast
 
 from sa.selftest import Mutant, Silent
 from sa.source import AnalysisError
-from sa.props._lib_f import InterpError, MDeferred, ModelRaised, NullLogger, World
+from sa.astx import call_attr, call_name, src, walk_local
+from sa.source import methods
+from sa.props._lib_f import (Abstain, InterpError, MDeferred, ModelRaised, NullLogger, World, enclosing_try_handlers, handler_names, norm_method, param_names, structural)
 
 PROPERTY = "C25"
 S = "web/static.py"
 Q = "twisted.web.static."
-TECHNIQUE = "finite-domain interpretation of File.makeProducer and its producers against an RFC 9110 oracle"
+TECHNIQUE = "range arithmetic over all orderings; exception-escape over the parser call graph; read-bound provenance; bounded response histories"
 EXPLANATION = (
+    "FINITE-EXHAUSTIVE: _rangeToOffsetAndSize over the complete case split (None-ness of start/end x orderings of start, end, size: order-only argument checked on the code) "
+    "against the RFC 9110 oracle (contains F25b).  STRUCTURAL: exception escape - every raise in _parseRangeHeader and the helpers it calls is ValueError, its implicit raisers "
+    "(int, unpacking) are ValueError by nature, makeProducer catches ValueError around the call and its handler touches the raw header only leniently (F25a); every read of "
+    "the range producers is min(..., bytes remaining in the part) and the single-range producer seeks first.  BOUNDED second layer (bounded evidence only for: exact response "
+    "bytes/headers per Range value, multipart layout and Content-Length, request order of the parts, the four known findings): "
     "static.File.makeProducer, _parseRangeHeader, _rangeToOffsetAndSize, _contentRange, _doSingleRangeRequest, _doMultipleRangeRequest, _setContentHeaders and the three "
     "StaticProducer classes are instantiated as model objects whose methods are the repository's own functions (interpreted over the AST; the request and the open file are "
     "checker models; nothing is imported or run), every response is produced to its end by driving the pull producer, and status, Content-Range, Content-Length, Content-Type "
@@ -23,6 +30,11 @@ EXPLANATION = (
     "sign / underscore / blanks -> malformed header honoured), F25f (a part boundary pushing the chunk past bufferSize -> read() with a negative length -> ValueError). "
     "Not decided: file size 0, HEAD (the Range header is ignored there), real file-system errors."
 )
+RULE_KINDS = {
+    "arith/": "finite-exhaustive",
+    "escape/": "structural", "producer/": "structural", "dispatch/": "structural",
+    "range/": "bounded",
+}
 ASSUMPTIONS = ["getFileSize() is constant during one request", "the request's write()/registerProducer() behave like the synchronous model (pull producer driven until finish)"]
 
 
@@ -276,8 +288,114 @@ def _run_grid(ctx, w, rule, construct, cases, what):
 SPECS = [b"0-0", b"5-0", b"0-", b"-0", b"1-0", b"5-5", b"6-5", b"3-", b"-3", b"-", b"a-b", b"1-a", b"10-20", b"0-1", b"7", b"1-2-3", b"-5000", b"9-", b"10-", b"2-100", b"-10"]
 
 
+# ==================================================================================================================================
+# STRUCTURAL layer: exception escape over the intra-class call graph, read bounds, dispatch guards (normalised view)
+# ==================================================================================================================================
+KEEP_FILE = {"makeProducer", "_parseRangeHeader", "_rangeToOffsetAndSize", "_contentRange", "_doSingleRangeRequest", "_doMultipleRangeRequest", "_setContentHeaders", "render_GET",
+             "getChild", "openForReading", "getFileSize"}
+LENIENT = {"replace", "ignore", "backslashreplace", "surrogateescape"}
+VALUEERROR_ONLY = {"int", "float"}          # builtins whose only failure on a bytes argument is ValueError
+
+
+def _closure(cls, start):
+    """methods of the class reachable from ``start`` through self.<m>(...) / <Class>.<m>(...) calls (the helpers a maintainer may have extracted)"""
+    ms = methods(cls)
+    seen, todo = [], [start]
+    while todo:
+        nm = todo.pop()
+        if nm in seen or nm not in ms:
+            continue
+        seen.append(nm)
+        for c in ast.walk(ms[nm]):
+            if isinstance(c, ast.Call) and isinstance(c.func, ast.Attribute) and src(c.func.value) in ("self", cls.name, "cls") and c.func.attr in ms:
+                todo.append(c.func.attr)
+    return [(nm, ms[nm]) for nm in seen]
+
+
+def _s_escape(ctx):
+    """EVERY exception class that can leave the Range parsing is ValueError, and makeProducer catches ValueError around the parse and handles it without touching the raw
+    header strictly (F25a)"""
+    cls = ctx.cls(S, "File")
+    q = Q + "File._parseRangeHeader"
+    fns = _closure(cls, "_parseRangeHeader")
+    if not fns:
+        raise Abstain("_parseRangeHeader not found")
+    n_raise = 0
+    for nm, f in fns:
+        for st in walk_local(f):
+            if isinstance(st, ast.Raise):
+                n_raise += 1
+                if st.exc is None:
+                    continue          # re-raise inside a handler: the class is that of the handler
+                e = st.exc.func if isinstance(st.exc, ast.Call) else st.exc
+                ctx.check(src(e) == "ValueError", "escape/parser-raises-only-valueerror", Q + f"File.{nm} | raise {src(e)}",
+                          f"the Range parser raises {src(e)}, which makeProducer does not catch (500 instead of the whole content)")
+        # implicit raisers (tuple-unpacking of a split, int(), a strict decode) fail with ValueError or a subclass of it by nature
+    if n_raise == 0:
+        raise Abstain("no raise statement found in the Range parser (shape not recognised)")
+    f = norm_method(ctx, S, "File", "makeProducer", keep=KEEP_FILE)
+    q = Q + "File.makeProducer"
+    calls = [c for c in walk_local(f) if isinstance(c, ast.Call) and call_name(c) == "self._parseRangeHeader"]
+    if len(calls) != 1:
+        raise Abstain(f"{len(calls)} calls of _parseRangeHeader in makeProducer")
+    hs = enclosing_try_handlers(f, calls[0])
+    ok = any({"ValueError", "Exception", "<bare>", "BaseException"} & set(handler_names(h)) for h in hs)
+    ctx.check(ok, "escape/parse-guarded", q + " | self._parseRangeHeader(...)", "ValueError from the Range parser is not caught by makeProducer: a malformed header is a 500 instead of the whole content")
+    raw = src(calls[0].args[0]) if calls[0].args else None
+    for h in hs:
+        for c2 in [x for x in ast.walk(h) if isinstance(x, ast.Call)]:
+            if isinstance(c2.func, ast.Attribute) and c2.func.attr == "decode" and src(c2.func.value) == raw:
+                err = c2.args[1] if len(c2.args) > 1 else next((k.value for k in c2.keywords if k.arg == "errors"), None)
+                ctx.check(isinstance(err, ast.Constant) and err.value in LENIENT, "escape/handler-lenient", q + " | <raw header>.decode() in the handler",
+                          "the malformed-header handler decodes the raw header strictly: `Range: \\xff` raises UnicodeDecodeError inside the handler (500 instead of the whole content)")
+            elif (call_name(c2) in ("nativeString", "str", "int", "float") or call_attr(c2) == "encode") and any(src(a_) == raw for a_ in c2.args):
+                ctx.violation("escape/handler-lenient", q + f" | {call_name(c2)}(<raw header>) in the handler", "the malformed-header handler converts the raw header with a call that can raise")
+    ctx.ok("escape/handler-lenient", q + " | <handler of the parse error>")
+
+
+def _s_producers(ctx):
+    """every read of a range producer is bounded by the bytes remaining in its part (so no byte after the range is sent); the single-range producer seeks before producing"""
+    for cname, remaining in (("SingleRangeStaticProducer", ("self.size - self.bytesWritten",)), ("MultipleRangeStaticProducer", ("self._partSize - self._partBytesWritten",))):
+        f = norm_method(ctx, S, cname, "resumeProducing", keep={"start", "resumeProducing", "_nextRange", "stopProducing", "__init__"})
+        q = Q + cname + ".resumeProducing"
+        reads = [c for c in walk_local(f) if isinstance(c, ast.Call) and call_name(c) == "self.fileObject.read"]
+        if not reads:
+            raise Abstain(f"no fileObject.read in {cname}.resumeProducing")
+        for c in reads:
+            a_ = c.args[0] if c.args else None
+            if not (isinstance(a_, ast.Call) and call_name(a_) == "min"):
+                if a_ is not None and any(r in src(a_) for r in remaining):
+                    raise Abstain("the read bound is not a min(...) expression")
+                ctx.violation("producer/read-bounded", q + " | fileObject.read(...)", f"the read length `{src(a_) if a_ is not None else ''}` is not bounded by the bytes remaining in the part: bytes after the range would be sent")
+                continue
+            ctx.check(any(src(x) in remaining for x in a_.args), "producer/read-bounded", q + " | fileObject.read(min(...))",
+                      f"the read is bounded by {[src(x) for x in a_.args]}, not by the bytes remaining in the part ({remaining[0]})")
+    f = norm_method(ctx, S, "SingleRangeStaticProducer", "start", keep={"start", "resumeProducing", "stopProducing", "__init__"})
+    g = ctx.cfg(f)
+    sk = [n for n in g.ids(lambda x: x.kind == "stmt") if "self.fileObject.seek(self.offset)" in src(g.node(n).ast)]
+    reg = [n for n in g.ids(lambda x: x.kind == "stmt") if "registerProducer" in src(g.node(n).ast)]
+    if not reg:
+        raise Abstain("registerProducer not found in SingleRangeStaticProducer.start")
+    ctx.check(bool(sk) and g.must_precede(sk, reg) is None, "producer/seek-first", Q + "SingleRangeStaticProducer.start", "the file is not positioned at the range offset before production starts")
+
+
+def _arith_domain(ctx):
+    """is _rangeToOffsetAndSize an order-only function of (start, end, size)?  (comparisons, +/-1, min/max): then small integers realise every ordering"""
+    f = norm_method(ctx, S, "File", "_rangeToOffsetAndSize", keep=KEEP_FILE)
+    for n in ast.walk(f):
+        if isinstance(n, ast.BinOp) and not isinstance(n.op, (ast.Add, ast.Sub)):
+            return f"operator {type(n.op).__name__}"
+        if isinstance(n, ast.Constant) and isinstance(n.value, int) and not isinstance(n.value, bool) and abs(n.value) > 1:
+            return f"constant {n.value}"
+        if isinstance(n, ast.Call) and (call_name(n) or "") not in ("max", "min", "self.getFileSize", "self.getsize"):
+            return f"call {call_name(n)}"
+    return None
+
+
 def check(ctx):
-    for name, fn in (("arithmetic", _arithmetic), ("responses", _responses), ("known-multi-unsatisfiable", _known_multi_unsat), ("known-empty-range-set", _known_empty),
+    for name, fn in (("s-escape", lambda c: structural(c, "escape/parse-guarded", "range/evaluated-responses (bounded)", _s_escape, c)),
+                     ("s-producers", lambda c: structural(c, "producer/read-bounded", "range/evaluated-responses (bounded)", _s_producers, c)),
+                     ("arithmetic", _arithmetic), ("responses", _responses), ("known-multi-unsatisfiable", _known_multi_unsat), ("known-empty-range-set", _known_empty),
                      ("known-lenient-integers", _known_lenient), ("known-boundary-overruns-buffer", _known_overrun)):
         with ctx.section(name):
             try:
@@ -311,7 +429,17 @@ def _arithmetic(ctx):
         s_, a, b, got, exp = bad[0]
         rng = f"-{b}" if a is None else f"{a}-{'' if b is None else b}"
         msg = f"Range: bytes={rng} on a {s_}-byte file gives (offset, size) = {got}, RFC 9110: {exp}; {len(bad)} of {n} cases differ"
-    ctx.check(not bad, "arith/range-to-offset", q, msg, detail=f"{n} (size, first, last) cases equal the oracle")
+    try:
+        why_not = _arith_domain(ctx)
+    except Abstain as a_:
+        why_not = str(a_)
+    if why_not:
+        ctx.note(f"arith/range-to-offset: domain argument not verified ({why_not}); the verdict is about the enumerated cases only")
+        dom = "domain argument NOT verified: bounded reading"
+    else:
+        dom = ("domain argument (checked on the code): the function combines start, end and size only by comparisons, +/-1 and min/max, so its case split is determined by the "
+               "None-ness of start/end and the ordering of start, end, size, 0 up to distance 1; sizes 1..9 x positions 0..12 realise every such ordering")
+    ctx.check(not bad, "arith/range-to-offset", q, msg, detail=f"{n} (size, first, last) cases equal the oracle; {dom}")
     ctx.extra["finite_cases_range_arithmetic"] = n
 
 
